@@ -10,6 +10,7 @@ import (
 	"sort"
 	"strings"
 	"testing"
+	"testing/synctest"
 	"time"
 
 	"github.com/ethereum/go-ethereum/common"
@@ -467,6 +468,9 @@ func (rb *rebooter) run(model *simdisk.FSModel, img map[string][]byte, mem *memo
 		w.db = db
 		// what the image durably holds, read before the chain touches it
 		bound, boundWhy = rb.noLossBound(db)
+		if os.Getenv("CHAINSIM_FREEZER_FIRST") != "" {
+			synctest.Wait()
+		}
 		rb.probeRewindWindow(db)
 		bc, err := core.NewBlockChain(db, rb.tree.gspec, rb.engine, rb.p.Knobs.configWait(nroot, false))
 		if err != nil {
